@@ -301,87 +301,7 @@ fn bool_expr(t: &mut Tape, depth: usize) -> E {
 }
 
 fn enumerated_trees() -> Vec<E> {
-    let (a, b, c, d) = (id("a"), id("b"), id("c"), id("d"));
-    let mut v = Vec::new();
-    for &o1 in &ALL_OPS {
-        for &o2 in &ALL_OPS {
-            v.push(bin(o2, bin(o1, a.clone(), b.clone()), c.clone()));
-            v.push(bin(o1, a.clone(), bin(o2, b.clone(), c.clone())));
-        }
-    }
-    for &o1 in &ALL_OPS {
-        for &o2 in &ALL_OPS {
-            for &o3 in &ALL_OPS {
-                let (x, y, z, w) = (a.clone(), b.clone(), c.clone(), d.clone());
-                v.push(bin(o3, bin(o2, bin(o1, x.clone(), y.clone()), z.clone()), w.clone()));
-                v.push(bin(o3, bin(o1, x.clone(), bin(o2, y.clone(), z.clone())), w.clone()));
-                v.push(bin(o2, bin(o1, x.clone(), y.clone()), bin(o3, z.clone(), w.clone())));
-                v.push(bin(o1, x.clone(), bin(o3, bin(o2, y.clone(), z.clone()), w.clone())));
-                v.push(bin(o1, x, bin(o2, y, bin(o3, z, w))));
-            }
-        }
-    }
-    // prefix / postfix / binary combinations
-    let prefixes: Vec<Box<dyn Fn(E) -> E>> = vec![
-        Box::new(|e| E::Neg(Box::new(e))),
-        Box::new(|e| E::Not(Box::new(e), false)),
-        Box::new(|e| E::Not(Box::new(e), true)),
-    ];
-    let postfixes: Vec<Box<dyn Fn(E) -> E>> = vec![
-        Box::new(|e| E::Fact(Box::new(e))),
-        Box::new(|e| E::Call(Box::new(e), vec![id("x")])),
-        Box::new(|e| E::Call(Box::new(e), vec![])),
-        Box::new(|e| E::Index(Box::new(e), Box::new(id("i")))),
-        Box::new(|e| E::Field(Box::new(e), "k".into())),
-    ];
-    for &op in &ALL_OPS {
-        for p in &prefixes {
-            v.push(p(bin(op, a.clone(), b.clone())));
-            v.push(bin(op, p(a.clone()), b.clone()));
-            v.push(bin(op, a.clone(), p(b.clone())));
-        }
-        for q in &postfixes {
-            v.push(q(bin(op, a.clone(), b.clone())));
-            v.push(bin(op, q(a.clone()), b.clone()));
-            v.push(bin(op, a.clone(), q(b.clone())));
-        }
-    }
-    for p in &prefixes {
-        for q in &postfixes {
-            v.push(p(q(a.clone())));
-            v.push(q(p(a.clone())));
-        }
-        for p2 in &prefixes {
-            v.push(p(p2(a.clone())));
-        }
-    }
-    for q in &postfixes {
-        for q2 in &postfixes {
-            v.push(q(q2(a.clone())));
-        }
-    }
-    // compound non-operator nodes as operands
-    let compounds = vec![
-        E::Lambda(vec![expr::P::Req("x".into())], Box::new(bin(Op::Add, id("x"), expr::n(1.0)))),
-        E::If(Box::new(a.clone()), Box::new(b.clone()), Box::new(c.clone())),
-        E::Assign("t".into(), Box::new(bin(Op::Add, a.clone(), b.clone()))),
-        E::Do(vec![], Box::new(a.clone())),
-    ];
-    for cmp in &compounds {
-        for &op in &ALL_OPS {
-            v.push(bin(op, cmp.clone(), b.clone()));
-            v.push(bin(op, a.clone(), cmp.clone()));
-        }
-        for p in &prefixes {
-            v.push(p(cmp.clone()));
-        }
-        for q in &postfixes {
-            v.push(q(cmp.clone()));
-        }
-        v.push(E::Lambda(vec![expr::P::Req("x".into())], Box::new(cmp.clone())));
-        v.push(E::If(Box::new(cmp.clone()), Box::new(cmp.clone()), Box::new(cmp.clone())));
-    }
-    v
+    expr::operator_shapes()
 }
 
 fn names() -> Vec<String> {
